@@ -209,9 +209,13 @@ class Run:
         self.workdir = os.path.join(WORK, "%s-%d" % (prop, os.getpid()))
         os.makedirs(self.workdir, exist_ok=True)
         self.known = load_known()
+        self.selftest = None      # dict stage -> mutator(record, rng) -> bool (True if it corrupted the record)
+        self.selftest_results = []
 
     # --- U1: a design-level model, no implementation in the loop
     def model(self, module, cfg, workers=8, timeout=600, heap="6g", env=None, note=""):
+        if self.selftest is not None:
+            return None
         r = run_tlc(module, cfg, env=env, workers=workers, timeout=timeout, heap=heap,
                     metadir=os.path.join(self.workdir, "md-" + module))
         self.cmds.append(r.cmd)
@@ -259,6 +263,8 @@ class Run:
         if not recs:
             self.tool_errors.append("stage %s: empty trace %s" % (stage, trace_path))
             return None
+        if self.selftest is not None:
+            return self._selftest_stage(stage, recs, trace_path, module, cfg, prefixes, workers, timeout, heap, env)
         e = {"VH_TRACE": trace_path}
         if env:
             e.update(env)
@@ -303,6 +309,43 @@ class Run:
                 if not any(name.startswith(p) for p in prefixes):
                     continue
                 self._violation(stage, idx, name, rec, trace_path, module, cfg)
+        return r
+
+    def _selftest_stage(self, stage, recs, trace_path, module, cfg, prefixes, workers, timeout, heap, env):
+        """Binding proof: corrupt recorded fields and require the validator to reject exactly those records."""
+        import random
+        mut = self.selftest.get(stage)
+        if mut is None:
+            return None
+        rnd = random.Random(self.seed * 7919 + len(recs))
+        order = list(range(len(recs)))
+        rnd.shuffle(order)
+        corrupted = []
+        recs = [json.loads(json.dumps(r)) for r in recs]
+        for i in order:
+            if len(corrupted) >= 40:
+                break
+            try:
+                if mut(recs[i], rnd):
+                    corrupted.append(i + 1)
+            except (KeyError, IndexError, TypeError):
+                pass
+        path = trace_path + ".corrupted"
+        write_ndjson(path, recs)
+        e = {"VH_TRACE": path}
+        if env:
+            e.update(env)
+        r = run_tlc(module, cfg, env=e, workers=workers, timeout=timeout, heap=heap,
+                    metadir=os.path.join(self.workdir, "md-st-" + stage))
+        flagged = set(idx for idx, names in r.viols if any(n.startswith(p) for n in names for p in prefixes))
+        hit = [i for i in corrupted if i in flagged]
+        spurious = sorted(flagged - set(corrupted))
+        res = {"stage": stage, "corrupted": len(corrupted), "rejected": len(hit), "spurious": len(spurious),
+               "tlc_ok": r.ok}
+        self.selftest_results.append(res)
+        log("[selftest] %s %s: %d records corrupted, %d rejected by the validator, %d other records flagged" %
+            (self.prop, stage, len(corrupted), len(hit), len(spurious)))
+        os.remove(path)
         return r
 
     def _violation(self, stage, idx, name, rec, trace_path, module, cfg):
